@@ -11,10 +11,12 @@ static unsigned char K32[32];
 /* the last five are configurations setkey accepts although key and algorithm do not go together (same size, other curve or
  * key type; an RSA-PSS key under RS256; a curve one provider cannot import): what they accept is C02's and C09's business,
  * here they are the way into each provider's key-import and refusal paths, which must be as clean as the accepting ones */
-enum { CF_NOKEY, CF_HS, CF_RS, CF_ES, CF_ED, CF_ES384, CF_ES512, CF_ED448, CF_PS, CF_ES_K256, CF_ESK_P256, CF_ED_P256, CF_RS_PSSKEY, CF_ES_BP256, NCF };
+enum { CF_NOKEY, CF_HS, CF_RS, CF_ES, CF_ED, CF_ES384, CF_ES512, CF_ED448, CF_PS, CF_ES_K256, CF_ESK_P256, CF_ED_P256, CF_RS_PSSKEY, CF_ES_BP256, CF_NOKEY_REFUSED, NCF };
 #define NCF_MATCHED CF_ES_K256
 static const char *cf_name[NCF] = { "no-key", "HS256+oct32", "RS256+rsa2048", "ES256+P-256", "EdDSA+ed25519", "ES384+P-384", "ES512+P-521", "EdDSA+ed448", "PS256+rsa2048",
-				    "ES256+secp256k1", "ES256K+P-256", "EdDSA+P-256", "RS256+rsa-pss-2048", "ES256+brainpoolP256r1" };
+				    "ES256+secp256k1", "ES256K+P-256", "EdDSA+P-256", "RS256+rsa-pss-2048", "ES256+brainpoolP256r1",
+				    /* a checker some of whose configuration calls were refused: expected iss set, then iss, sub and aud "set" to text that is not UTF-8 */
+				    "no-key, after refused claim_set calls" };
 static jwk_set_t *cf_set[NCF];
 static jwt_checker_t *cf_chk[NCF];
 static char *VALID[NCF];       /* one valid token per configuration */
@@ -37,19 +39,27 @@ static void setup(void)
 	t = vk_jwk_text(vk_get("rsapss2048"), 0, NULL, NULL); cf_set[CF_RS_PSSKEY] = jwks_create(t); free(t);
 	t = vk_jwk_text(vk_get("bp256r1"), 0, NULL, NULL); cf_set[CF_ES_BP256] = jwks_create(t); free(t);
 	static const jwt_alg_t algs[NCF] = { JWT_ALG_NONE, JWT_ALG_HS256, JWT_ALG_RS256, JWT_ALG_ES256, JWT_ALG_EDDSA, JWT_ALG_ES384, JWT_ALG_ES512, JWT_ALG_EDDSA, JWT_ALG_PS256,
-					     JWT_ALG_ES256, JWT_ALG_ES256K, JWT_ALG_EDDSA, JWT_ALG_RS256, JWT_ALG_ES256 };
-	static const char *keyn[NCF] = { NULL, NULL, "rsa2048a", "p256a", "ed25519a", "p384", "p521", "ed448", "rsa2048a", "k256", "p256a", "p256a", "rsapss2048", "bp256r1" };
+					     JWT_ALG_ES256, JWT_ALG_ES256K, JWT_ALG_EDDSA, JWT_ALG_RS256, JWT_ALG_ES256, JWT_ALG_NONE };
+	static const char *keyn[NCF] = { NULL, NULL, "rsa2048a", "p256a", "ed25519a", "p384", "p521", "ed448", "rsa2048a", "k256", "p256a", "p256a", "rsapss2048", "bp256r1", NULL };
 	rc_rng_reseed(606);
 	for (int c = 0; c < NCF; c++) {
 		cf_chk[c] = jwt_checker_new();
-		if (c && jwt_checker_setkey(cf_chk[c], algs[c], jwks_item_get(cf_set[c], 0))) {
+		if (c && c != CF_NOKEY_REFUSED && jwt_checker_setkey(cf_chk[c], algs[c], jwks_item_get(cf_set[c], 0))) {
 			fprintf(stderr, "parse: setkey failed for %s\n", cf_name[c]);
 			exit(2);
 		}
+		if (c == CF_NOKEY_REFUSED) {
+			jwt_checker_claim_set(cf_chk[c], JWT_CLAIM_ISS, "i");
+			int r1 = jwt_checker_claim_set(cf_chk[c], JWT_CLAIM_ISS, "\xff\xfe"), r2 = jwt_checker_claim_set(cf_chk[c], JWT_CLAIM_SUB, "\xc3\x28"),
+			    r3 = jwt_checker_claim_set(cf_chk[c], JWT_CLAIM_AUD, "a\x80");
+			if (!r1 || !r2 || !r3)
+				vf_note("claim_set with text that is not UTF-8 was accepted (%d %d %d)", r1, r2, r3);
+			jwt_checker_error_clear(cf_chk[c]);
+		}
 		char hdr[64];
 		snprintf(hdr, sizeof hdr, "{\"alg\":\"%s\"}", tok_alg_names[algs[c]]);
-		char *input = tok_signing_input(hdr, "{\"sub\":\"x\",\"n\":[1,2]}");
-		if (c == CF_NOKEY) {
+		char *input = tok_signing_input(hdr, c == CF_NOKEY_REFUSED ? "{\"iss\":\"i\",\"sub\":\"x\",\"aud\":\"a\"}" : "{\"sub\":\"x\",\"n\":[1,2]}");
+		if (c == CF_NOKEY || c == CF_NOKEY_REFUSED) {
 			VALID[c] = malloc(strlen(input) + 2);
 			sprintf(VALID[c], "%s.", input);
 		} else if (c == CF_HS) {
